@@ -404,6 +404,45 @@ func propC19(w *World, r *Report) {
 		}
 		r.Check(len(pis) == 1, "Q3", "Reset is straight-line", "-", fmt.Sprint(len(pis)))
 	}
+	// ---- a ring is self-contained: its constructor and methods touch no package-level variable and register no
+	// finalizer (frames shared between rings through a pool would let one ring's history be blanked or overwritten by
+	// another ring)
+	{
+		fns := []*ssa.Function{ri.Ctor}
+		for fn := range w.AllFuncs {
+			if rv := fn.Signature.Recv(); rv != nil && isPtrTo(rv.Type(), ri.T) && len(fn.Blocks) > 0 {
+				fns = append(fns, fn)
+			}
+		}
+		sort.Slice(fns, func(i, j int) bool { return fns[i].String() < fns[j].String() })
+		for _, fn := range fns {
+			bad := ""
+			var at ssa.Instruction
+			scan := []*ssa.Function{fn}
+			scan = append(scan, fn.AnonFuncs...)
+			for _, f := range scan {
+				for _, b := range f.Blocks {
+					for _, in := range b.Instrs {
+						for _, op := range in.Operands(nil) {
+							if g, ok := (*op).(*ssa.Global); ok && g.Pkg == ri.Ctor.Pkg {
+								bad, at = "package variable "+g.Name(), in
+							}
+						}
+						if c, ok := in.(ssa.CallInstruction); ok {
+							if cl := c.Common().StaticCallee(); cl != nil && cl.String() == "runtime.SetFinalizer" {
+								bad, at = "runtime.SetFinalizer", in
+							}
+						}
+					}
+				}
+			}
+			pos := w.Pos(fn.Pos())
+			if at != nil {
+				pos = w.InstrPos(at)
+			}
+			r.Check(bad == "", "Q2", fn.Name()+": the ring keeps no state outside itself (no package variable, no finalizer)", pos, bad)
+		}
+	}
 	// ---- CopyRecent
 	{
 		pis, _ := analyse(ri.methods["CopyRecent"])
